@@ -128,6 +128,18 @@ func init() {
 	for p := range fsRuleSets {
 		checks[p] = checkFs(p)
 	}
+	base04 := checks["C04"]
+	checks["C04"] = func(p *Program, r *Report) {
+		base04(p, r)
+		checkAccessors(p, r)
+		r.Engines = append(r.Engines, "sibling")
+	}
+	base16 := checks["C16"]
+	checks["C16"] = func(p *Program, r *Report) {
+		base16(p, r)
+		checkEmptyStack(p, r)
+		r.Engines = append(r.Engines, "nilcontract")
+	}
 	base10 := checks["C10"]
 	checks["C10"] = func(p *Program, r *Report) {
 		base10(p, r)
